@@ -92,4 +92,11 @@ def _walls(ctx, R):
 
 _walls.rule_id = "C03.WALLS"
 
-RULES = [target, weights, round_rule, order, sort_rule, chain_rule, gap_rule, opts_rule, solve_rule, alllayers, _walls] + vpsc_pack.OPT + vpsc_pack.COST
+def _reset(ctx, R):
+    from .c04 import reset
+    return reset(ctx, R)
+
+
+_reset.rule_id = "C06.RESET"
+
+RULES = [target, weights, round_rule, order, sort_rule, chain_rule, gap_rule, opts_rule, solve_rule, alllayers, _walls, _reset] + vpsc_pack.OPT + vpsc_pack.COST
